@@ -21,7 +21,7 @@ def prop(pid, rules, explanation, extra_assumptions=(), technique="static analys
     REGISTRY[pid] = {"rules": rules, "explanation": explanation, "assumptions": COMMON_ASSUMPTIONS + list(extra_assumptions), "technique": technique}
 
 
-from . import rules_order as RO, rules_tower as RT, rules_plugin as PL, rules_panic as PN, rules_sql as SQ, rules_wire as WT, rules_config as CF, rules_outage as OUT
+from . import rules_order as RO, rules_tower as RT, rules_plugin as PL, rules_panic as PN, rules_sql as SQ, rules_wire as WT, rules_config as CF, rules_outage as OUT, rules_index as IX
 
 STATIC = ("This check decides structural clauses that are necessary conditions of the property, for ALL paths / thread pairs / table rows of the "
           "compiled program (MIR of /repo's working tree); it does not decide the behavioural statement as a whole. ")
@@ -32,10 +32,10 @@ prop("C01", [RO.rule_OR1, RO.rule_OR2_watcher, RO.rule_OR2_responder, RO.rule_CR
      "no early loop exit (OR2w/OR2r); no accepted-but-unwatched window against the block thread (AT1); cache window 6 / index 100 / locator 16 bytes (EF3); "
      "breach provenance (EF1). NOT decided: that the right set of breaches is computed for every history (SQL IN semantics, collisions, node verdict mapping).",
      technique="MIR path-fact dataflow + origin tracing + lock-span analysis")
-prop("C02", [RO.rule_EF1, RO.rule_OR2_responder, RO.rule_CR, RO.rule_OR2_gatekeeper, RO.rule_OR1, SQ.rule_SQ1, RO.rule_TX],
+prop("C02", [RO.rule_EF1, RO.rule_OR2_responder, RO.rule_CR, RO.rule_OR2_gatekeeper, RO.rule_OR1, SQ.rule_SQ1, RO.rule_TX, LK.rule_AT1],
      STATIC + "Decided: only Carrier::send_transaction reaches sendrawtransaction, and every transaction handed to it is either the Ok payload of "
      "decrypt(blob, txid(dispute)) paired with that dispute, or a field of a stored tracker (EF1); tracker iff accepted, both disconnect handlers purge their index (OR2r); "
-     "owner removal precedes Watcher/Responder and cascades in the DB, foreign keys switched on in the production constructor (OR1, OR2g, SQ1). "
+     "owner removal precedes Watcher/Responder and cascades in the DB, foreign keys switched on in the production constructor (OR1, OR2g, SQ1); a cache hit is acted on inside the same locator-cache critical section that found it, so the disconnect purge cannot run between look-up and broadcast (AT1). "
      "NOT decided: that exactly the disconnected block's entries are purged (container contents, C19).",
      technique="who-may-call + interprocedural origin tracing + SQL schema tables")
 prop("C03", [RO.rule_OR3, LK.rule_CBS, RO.rule_OR2_watcher, SQ.rule_SQ3, SQ.rule_SQ1, SQ.rule_SQ5_tower, LK.rule_AT2, RO.rule_OR2_gatekeeper],
@@ -69,7 +69,7 @@ prop("C07", [RT.rule_SL, LK.rule_AT2, RO.rule_EF2, RO.rule_EF3, SQ.rule_SQ3, SQ.
 prop("C08", [RT.rule_RC, WT.rule_WT3, SQ.rule_SQ2],
      STATIC + "Decided: an appointment receipt is returned only on paths that stored the appointment / handed it to the responder, is built from the same ExtendedAppointment (request signature, "
      "height at acceptance) and is signed with the tower key; registration receipts are built from the persisted record; gRPC responses map like-named fields (RC); signed layouts cover every field "
-     "once with at most one variable-length component (WT3); updates rewrite all mutable columns, inserts/updates bind parameters in column order (SQ2). NOT decided: signature validity, byte-for-byte read-back.",
+     "once with at most one variable-length component, integers whole through to_be_bytes of their own width (WT3); updates rewrite all mutable columns, inserts/updates bind parameters in column order (SQ2). NOT decided: signature validity, byte-for-byte read-back.",
      technique="dominance + field-level origin tracing + SQL/bind-order tables")
 prop("C09", [RT.rule_SB, RO.rule_OR2_gatekeeper, RO.rule_OR1, SQ.rule_SQ1],
      STATIC + "Decided: expired = (height >= subscription_expiry) reporting that expiry; outdated = (block_height >= subscription_expiry + expiry_delta); renewal = checked_add(expiry, duration).unwrap_or(MAX) "
@@ -80,10 +80,10 @@ prop("C10", [LK.rule_lock_classes, LK.rule_AT1, LK.rule_AT2, LK.rule_AT3, LK.rul
      "AT2 (each balance read-modify-write is one critical section), AT3 (charge and store atomic against an identical concurrent submission), LK0/LK1 (no two operations can wait on each other). "
      "NOT decided: equivalence of final states to some sequential order (needs execution).",
      technique="guard-liveness dataflow on MIR (lock sets), lock-order graph with thread-root reachability")
-prop("C11", [LK.rule_lock_classes, LK.rule_LK0, LK.rule_LK1, LK.rule_LK2, PN.rule_PN_tower],
+prop("C11", [LK.rule_lock_classes, LK.rule_LK0, LK.rule_LK1, LK.rule_LK2, PN.rule_PN_tower, IX.rule_IXt],
      STATIC + "Decided: no re-entrant acquisition (LK0), no lock-order cycle between concurrently runnable threads (LK1), condvar wait discipline (LK2), and every unwrap/expect reachable from an API or chain "
      "thread root classified: request-derived ones validated by the HTTP layer, replayed inserts guarded by an existence test in the same critical section, look-ups justified in the same critical section (PNt, "
-     "each labelled with the locks held, i.e. what a panic would poison). NOT decided: absence of panics in general (sqlite I/O), liveness after arbitrary histories.",
+     "each labelled with the locks held, i.e. what a panic would poison); index/slice/positional operations and explicit panic!/unreachable! on those paths are discharged by constants, length guards on every path or a closed variant set of the callee (IXt). NOT decided: absence of panics in general (sqlite I/O), liveness after arbitrary histories.",
      technique="lock-order graph + condvar wake-up reachability + classified-unwrap table with same-section discharge")
 prop("C12", [OUT.rule_OUT, LK.rule_LK2],
      STATIC + "Decided: both Carrier RPC wrappers wait for reachability first; a transport error flags the outage and re-issues the same call, never yields a verdict; the monitor sets the flag true + notify_all "
@@ -94,15 +94,15 @@ prop("C13", [PL.rule_PL6, PL.rule_PL2, PL.rule_PL7, PL.rule_PL8],
      "Retrier::run makes progress or leaves; run only under the bounded exponential back-off built from the configured values (PL2); reload on start and on idle wake-up (PL7); each outcome arm sets the documented status, "
      "predicate tables (PL8). NOT decided: delays, the back-off schedule, 'within the configured delays'.",
      technique="gate facts on channel sends + CFG progress analysis + enum predicate tables by abstract evaluation")
-prop("C14", [PL.rule_PL4, PL.rule_PL5, PN.rule_PN_plugin, PL.rule_PL1, PL.rule_PL2],
+prop("C14", [PL.rule_PL4, PL.rule_PL5, PN.rule_PN_plugin, PL.rule_PL1, PL.rule_PL2, PL.rule_PL7, IX.rule_IXp],
      STATIC + "Decided: add_update_tower only under receipt.verify(tower_id) == true of the same receipt, strict extension of expiry and slots for a known tower; appointment receipts accepted only if the recovered signer "
      "equals the tower id, otherwise SignatureError -> proof persisted before the status flips -> permanent on the retry path (PL4); sends only to reachable towers, status predicate tables (PL5); no reply class panics (PNp), "
-     "is left unrecorded (PL1) or wedges the retry loop (PL2). NOT decided: 'any reply' for panics inside reqwest/serde.",
+     "is left unrecorded (PL1) or wedges the retry loop (PL2); the in-memory status that gates sending is written only by the listed mutators and never rebuilt from a reply (PL7); no index/slice/positional operation or explicit panic on reply-driven paths is undischarged (IXp). NOT decided: 'any reply' for panics inside reqwest/serde.",
      technique="guard facts at call sites + origin equality of verified/recorded values + classified-unwrap table")
-prop("C15", [WT.rule_HT1, PN.rule_PN2, WT.rule_WT4],
+prop("C15", [WT.rule_HT1, PN.rule_PN2, WT.rule_WT4, IX.rule_IXt],
      STATIC + "Decided: the tonic codes constructible in the public handlers are all mapped by explicit arms of match_status to the documented error constants, UNEXPECTED_ERROR only on the catch-all; handle_rejection / ApiError "
      "emit only documented codes; four POST routes with their body limits, one shared recover(handle_rejection); empty/size checks precede forwarding (HT1); what the internal service unwraps on request data is validated "
-     "by the HTTP handler before the gRPC call (PN2). NOT decided: promptness, 5xx freedom inside warp/tonic, state unchanged after non-200.",
+     "by the HTTP handler before the gRPC call (PN2); the HTTP layer, the serde adapters and everything reachable from the handlers contain no undischarged index/slice/byte-offset string operation or explicit panic (IXt). NOT decided: promptness, 5xx freedom inside warp/tonic, state unchanged after non-200.",
      technique="finite code tables extracted from MIR switches + validated-before-forwarded facts")
 prop("C16", [WT.rule_WT1, WT.rule_WT2, WT.rule_WT3, WT.rule_WT4, RT.rule_AU1],
      STATIC + "Decided: per endpoint both sides (de)serialise the same generated message type (so names, renames and adapters agree by construction); the two ApiError structs are twins; status Display/FromStr are inverse "
